@@ -1,4 +1,14 @@
 import InToto.Properties.C12
+#print axioms InToto.C12.link_roundtrip
+#print axioms InToto.C12.layout_roundtrip
+#print axioms InToto.C12.signatures_roundtrip
+#print axioms InToto.C12.unknown_field_refused
+#print axioms InToto.C12.wrong_type_refused_str
+#print axioms InToto.C12.wrong_type_refused_int
+#print axioms InToto.C12.absent_or_null_parts_refused
+#print axioms InToto.C12.unknown_type_refused
+#print axioms InToto.C12.link_missing_field_refused
+#print axioms InToto.C12.layout_missing_field_refused
 #print axioms InToto.C12.good_link_loads
 #print axioms InToto.C12.unknown_field_example
 #print axioms InToto.C12.missing_field_example
